@@ -21,34 +21,6 @@ Local Arguments N.sub : simpl never.
 Local Arguments N.of_nat : simpl never.
 Local Arguments len : simpl never.
 
-(* ---------- the recursive bound ---------- *)
-Definition env_len (e : option ctx) : N := match e with Some e => len e | None => 0 end.
-
-Fixpoint cg_bound (s : stmt) (n : N) : N :=
-  1 +
-  match s with
-  | Substitute re next => n + (1 + n + len re) + cg_bound next (len re)
-  | Call _ _ => 1
-  | Let _ _ _ args next => (1 + len args) + 1 + cg_bound next (n - len args + 1)
-  | Switch _ _ cls =>
-      4 + len cls +
-      (fix go (l : list (ident * ctx * stmt)) : N :=
-         match l with [] => 0 | (_, cx, b) :: r => 1 + (1 + len cx) + cg_bound b (n - 1 + len cx) + go r end) cls
-  | Create _ _ env cls next =>
-      (1 + env_len env) + 1 + cg_bound next (n - env_len env + 1) + 1 + len cls +
-      (fix go (l : list (ident * ctx * stmt)) : N :=
-         match l with [] => 0 | (_, cx, b) :: r => 1 + (1 + env_len env) + cg_bound b (len cx + env_len env) + go r end) cls
-  | Invoke _ _ _ _ => 1
-  | Literal _ _ next => 1 + cg_bound next (n + 1)
-  | Op _ _ _ _ next => 1 + cg_bound next (n + 1)
-  | PrintI64 _ _ next => (1 + n) + cg_bound next n
-  | IfC _ _ _ t e => 2 + cg_bound e n + cg_bound t n
-  | Exit _ => 2
-  end.
-Fixpoint cg_bound_sw (n : N) (l : list (ident * ctx * stmt)) : N :=
-  match l with [] => 0 | (_, cx, b) :: r => 1 + (1 + len cx) + cg_bound b (n - 1 + len cx) + cg_bound_sw n r end.
-Fixpoint cg_bound_cr (e : N) (l : list (ident * ctx * stmt)) : N :=
-  match l with [] => 0 | (_, cx, b) :: r => 1 + (1 + e) + cg_bound b (len cx + e) + cg_bound_cr e r end.
 Lemma cg_bound_switch : forall v t cls n, cg_bound (Switch v t cls) n = 1 + (4 + len cls + cg_bound_sw n cls).
 Proof. intros; simpl; do 2 f_equal; induction cls as [|[[x cc] b] r IH]; simpl; auto; rewrite IH; auto. Qed.
 Lemma cg_bound_create : forall v t env cls next n,
@@ -56,28 +28,6 @@ Lemma cg_bound_create : forall v t env cls next n,
   1 + ((1 + env_len env) + 1 + cg_bound next (n - env_len env + 1) + 1 + len cls + cg_bound_cr (env_len env) cls).
 Proof. intros; simpl; do 2 f_equal; induction cls as [|[[x cc] b] r IH]; simpl; auto; rewrite IH; auto. Qed.
 
-(* largest context length met while generating code for s from a context of length n *)
-Fixpoint ax_maxw (s : stmt) (n : N) : N :=
-  N.max n
-  match s with
-  | Substitute re next => ax_maxw next (len re)
-  | Let _ _ _ args next => ax_maxw next (n - len args + 1)
-  | Switch _ _ cls =>
-      (fix go (l : list (ident * ctx * stmt)) : N :=
-         match l with [] => 0 | (_, cx, b) :: r => N.max (ax_maxw b (n - 1 + len cx)) (go r) end) cls
-  | Create _ _ env cls next =>
-      N.max (N.max (env_len env) (ax_maxw next (n - env_len env + 1)))
-      ((fix go (l : list (ident * ctx * stmt)) : N :=
-         match l with [] => 0 | (_, cx, b) :: r => N.max (ax_maxw b (len cx + env_len env)) (go r) end) cls)
-  | Literal _ _ next | Op _ _ _ _ next => ax_maxw next (n + 1)
-  | PrintI64 _ _ next => ax_maxw next n
-  | IfC _ _ _ t e => N.max (ax_maxw t n) (ax_maxw e n)
-  | Call _ _ | Invoke _ _ _ _ | Exit _ => 0
-  end.
-Fixpoint ax_maxw_sw (n : N) (l : list (ident * ctx * stmt)) : N :=
-  match l with [] => 0 | (_, cx, b) :: r => N.max (ax_maxw b (n - 1 + len cx)) (ax_maxw_sw n r) end.
-Fixpoint ax_maxw_cr (e : N) (l : list (ident * ctx * stmt)) : N :=
-  match l with [] => 0 | (_, cx, b) :: r => N.max (ax_maxw b (len cx + e)) (ax_maxw_cr e r) end.
 Lemma ax_maxw_switch : forall v t cls n, ax_maxw (Switch v t cls) n = N.max n (ax_maxw_sw n cls).
 Proof. intros; simpl; f_equal; induction cls as [|[[x cc] b] r IH]; simpl; auto; rewrite IH; auto. Qed.
 Lemma ax_maxw_create : forall v t env cls next n,
@@ -402,8 +352,6 @@ Proof.
 Qed.
 
 (* whole program: `translate` concatenates label + code of every definition *)
-Fixpoint cg_bound_defs (ds : list def) : N :=
-  match ds with [] => 0 | d :: r => 1 + cg_bound (dbody d) (len (dctx d)) + cg_bound_defs r end.
 Theorem translate_size_lemma : forall types ds lc code lc',
   translate B types ds lc = Ok (code, lc') -> len code <= K * cg_bound_defs ds.
 Proof.
